@@ -26,6 +26,7 @@ HERE = os.path.dirname(os.path.abspath(__file__))
 sys.path.insert(0, HERE)
 import dotleg  # noqa: E402  (readers created with SQFS_DIR_READER_DOT_ENTRIES: props/C10/dotleg.py)
 import sizeleg  # noqa: E402  (images with valid streams that expand to another size than expected: props/C10/sizeleg.py)
+import xfineleg  # noqa: E402  (the fine-grained xattr reader API: crafted xattr sections + op generators: props/C10/xfineleg.py)
 LEVEL = "proof"
 ENV = dict(os.environ, ASAN_OPTIONS="detect_leaks=0:allocator_may_return_null=1:max_allocation_size_mb=3000",
            UBSAN_OPTIONS="print_stacktrace=1")
@@ -453,11 +454,14 @@ def gen_ops(rnd, f, n, meta_only=False, with_L=True):
             nx = f["xattr_ids"]
             i = rnd.choice([0, 1, max(0, nx - 1), nx, nx + 7, 0xFFFFFFFF, rnd.randrange(0, nx + 1)])
             k = rnd.random()
-            if k < 0.5:
+            if k < 0.35:
                 return ["X %d" % i]
-            if k < 0.8:
+            if k < 0.55:
                 return ["XK %d %d" % (i, rnd.choice([1, 2, 3, 4]))]
-            return ["XD %d" % i]
+            if k < 0.70:
+                return ["XD %d" % i]
+            # the individual calls of the key/value API with a lookup (or a copy) between two cursor calls
+            return xfineleg.snippet(rnd, nx)
         if r < 0.96:
             return ["U %d" % rnd.choice([0, 1, max(0, f["ids"] - 1), f["ids"], f["ids"] + 1, 65535])]
         if with_L:
@@ -499,6 +503,14 @@ def corpus_ops(kind, f):
         if "s0" in bn and "bad" in bn:
             ops += ["G %d" % bn["s0"], "G %d" % bn["bad"], "G %d" % bn["bad"], "F %d 0 10" % bn["bad"], "G %d" % bn["s0"],
                     "T %d 0" % bn["bad"], "TO 0 %d" % bn["s1"], "TR 0 10", "G %d" % bn["bad"], "TR 0 1000"]
+    if kind == "xfine":
+        # position on a set, read a key, resolve an index of the OTHER descriptor block, read on (seed C10-6: one meta
+        # reader behind both cursors); out-of-line value, then the next pair (M6: position not restored)
+        nx = f["xattr_ids"]
+        far = 513 if nx > 513 else max(0, nx - 1)
+        ops += ["XG 0 1", "XS 0", "XRK 0", "XG 1 %d" % far, "XRV 0", "XRK 0", "XD 2", "XRV 0", "XRP", "XC", "XRP",
+                "XG 2 %d" % far, "XS 2", "XRP", "XG 3 0", "XRP", "XL", "XS 0", "XRK 1", "X %d" % far, "XRP", "XS 0", "XRK 0", "XRV 0",
+                "XA 1", "XRK 0", "XA %d" % far, "XRP", "XG 0 5", "XL", "XG 0 6", "XS 0", "XRP", "XD 7", "XC", "XD 8"]
     if kind == "twofrag":
         fs = sorted(f["byname"].items())
         cnt, st = s["frag_count"], s["frag_table_start"]
@@ -521,6 +533,7 @@ def run_prog(cmd, ops, timeout=120, env=None):
         return 124, (e.stdout or b"").decode("latin-1").split("\n"), "timeout"
 
 
+FINE_OPS = ("XG", "XGR", "XS", "XRK", "XRV", "XRP", "XL", "XC", "XA")
 ALLOC_TOK = re.compile(r"^(\w+=)?-1$")
 ERR_TOK = re.compile(r"^(\w+=)?(-\d+|CRASH)$")
 
@@ -533,6 +546,13 @@ def model_agrees(impl, model):
     a, m = impl.split(" "), model.split(" ")
     for x, y in zip(a, m):
         if x != y:
+            if "," in x and x.count(",") == y.count(",") and x.split("=")[0] == y.split("=")[0] and "=" in x:
+                # a status list "r=a,b,c" (op XA): component by component
+                xs, ys = x.split("=", 1)[1].split(","), y.split("=", 1)[1].split(",")
+                if not all(p == q or (p == "-1" and ERR_TOK.match(q)) for p, q in zip(xs, ys)):
+                    return False
+                k = a.index(x)
+                return a[k + 1:] == m[k + 1:]
             return bool(ALLOC_TOK.match(x) and ERR_TOK.match(y) and x.split("=")[0] == y.split("=")[0] or
                         (ALLOC_TOK.match(x) and ERR_TOK.match(y) and "=" not in x and "=" not in y))
     return False
@@ -545,15 +565,26 @@ def strip(line):
 
 
 class Case:
-    def __init__(self, name, path, ops, kind):
+    def __init__(self, name, path, ops, kind, alloc_mb=None):
         self.name, self.path, self.ops, self.kind = name, path, ops, kind
+        # upper bound for one allocation in the harness runs of this case (None: the 3000 MB of ENV).  The cursor calls of
+        # the xattr reader allocate what a 32 bit size field says before they read; on positions that are not the start
+        # of a pair that is gigabytes per call, and ASan pays for every page.  Above the bound calloc returns NULL
+        # (SQFS_ERROR_ALLOC), in the long-lived and the fresh run alike.
+        self.alloc_mb = alloc_mb
+
+
+def _cap(env, mb):
+    if not mb:
+        return env
+    return dict(env, ASAN_OPTIONS=env["ASAN_OPTIONS"] + ":max_allocation_size_mb=%d" % mb)
 
 
 def evaluate(ctx, h, drv, case, stats):
     """returns list of (kind, index, detail, regime) problems"""
-    rc_l, out_l, err_l = run_prog([h, case.path, "long"], case.ops)
-    rc_f, out_f, err_f = run_prog([h, case.path, "fresh"], case.ops, env=ENV_FRESH)
-    rc_r, out_r, err_r = run_prog([h, case.path, "long"], case.ops, env=REGIMES["reuse"])
+    rc_l, out_l, err_l = run_prog([h, case.path, "long"], case.ops, env=_cap(ENV, case.alloc_mb))
+    rc_f, out_f, err_f = run_prog([h, case.path, "fresh"], case.ops, env=_cap(ENV_FRESH, case.alloc_mb))
+    rc_r, out_r, err_r = run_prog([h, case.path, "long"], case.ops, env=_cap(REGIMES["reuse"], case.alloc_mb))
     probs = []
     if rc_l != 0 or rc_f != 0 or rc_r != 0:
         bad_out, bad_err, reg = (out_l, err_l, "default") if rc_l else ((out_f, err_f, "default") if rc_f else (out_r, err_r, "reuse"))
@@ -570,11 +601,19 @@ def evaluate(ctx, h, drv, case, stats):
         elif rc_m != 0:
             probs.append(("model-crash", len(case.ops) - 1, "model driver died rc=%d: %s" % (rc_m, err_m[-800:]), "default"))
             out_m = None
+    # Allocation failure is not modelled: where the implementation reports SQFS_ERROR_ALLOC and the model another error
+    # (accepted by model_agrees), the xattr reader's key/value cursor is left where the failed call stopped, which is not
+    # where the model's failed read stopped.  The trace comparison of the cursor calls resumes at the next call that
+    # positions the cursor (successful seek_kv / read_all / partial iteration, or a re-load).
+    kv_desync = False
+    kv_tainted = set()
     for i, op in enumerate(case.ops):
         a = strip(out_l[i]) if i < len(out_l) else "<missing>"
         b = strip(out_f[i]) if i < len(out_f) else "<missing>"
         r = strip(out_r[i]) if i < len(out_r) else "<missing>"
         stats["ops"] += 1
+        if op.split(" ", 1)[0] in FINE_OPS:
+            stats["fine_ops"] = stats.get("fine_ops", 0) + 1
         if b != "-":
             stats["cmp_fresh"] += 2
             if r != b:
@@ -591,10 +630,26 @@ def evaluate(ctx, h, drv, case, stats):
             probs.append(("api-disagree", i, "op %r: %s" % (op, a), "default"))
         if out_m is not None:
             m = strip(out_m[i]) if i < len(out_m) else "<missing>"
-            if m != "?":
+            opn = op.split(" ")[0]
+            if opn == "XL" or (opn == "XS" and a.startswith("s=0")) or (opn == "X" and a.startswith("0 ")) or (opn == "XK" and " s=0" in a) \
+                    or (opn == "XA" and " AGREE" in a):
+                kv_desync = False
+            ks = (int(op.split(" ")[1]) % 2) if opn in ("XRK", "XRV") and len(op.split(" ")) > 1 else 0
+            if kv_desync and opn in ("XRK", "XRV", "XRP"):
+                stats["kv_desync_skipped"] = stats.get("kv_desync_skipped", 0) + 1
+                if opn == "XRK":
+                    kv_tainted.add(ks)      # the caller-owned key (its type word) may differ from now on
+            elif opn == "XRV" and ks in kv_tainted:
+                stats["kv_desync_skipped"] = stats.get("kv_desync_skipped", 0) + 1
+                kv_desync = True
+            elif m != "?":
+                if opn == "XRK" and a == m and a.startswith("r=0"):
+                    kv_tainted.discard(ks)
                 stats["cmp_model"] += 1
                 if not model_agrees(a, m):
                     probs.append(("tie", i, "op %r: impl(long-lived)=%r model=%r" % (op, a, m), "default"))
+                elif a != m and opn in ("X", "XK", "XA", "XRK", "XRV", "XRP"):
+                    kv_desync = True
     return probs
 
 
@@ -607,11 +662,12 @@ def shrink(ctx, h, case, kind, idx, regime="default"):
 
     def fails(hs):
         c = header + hs + [target]
-        rc_l, out_l, _ = run_prog([h, case.path, "long"], c, env=REGIMES["reuse" if regime in ("reuse", "regimes") else "default"])
+        rc_l, out_l, _ = run_prog([h, case.path, "long"], c,
+                                  env=_cap(REGIMES["reuse" if regime in ("reuse", "regimes") else "default"], case.alloc_mb))
         if regime == "regimes":
-            rc_f, out_f, _ = run_prog([h, case.path, "long"], c)
+            rc_f, out_f, _ = run_prog([h, case.path, "long"], c, env=_cap(ENV, case.alloc_mb))
         else:
-            rc_f, out_f, _ = run_prog([h, case.path, "fresh"], c, env=ENV_FRESH)
+            rc_f, out_f, _ = run_prog([h, case.path, "fresh"], c, env=_cap(ENV_FRESH, case.alloc_mb))
         if rc_l or rc_f:
             return kind == "crash"
         if len(out_l) < len(c) or len(out_f) < len(c):
@@ -643,7 +699,8 @@ def classify(detail_ops):
     last = detail_ops[-1].split(" ")[0]
     fam = {"MQ": "meta", "MS": "meta", "MR": "meta", "MP": "meta", "I": "inode", "DL": "dir", "DO": "dir", "DR": "dir",
            "P": "path", "F": "data", "B": "data", "G": "frag", "T": "stream", "TO": "stream", "TR": "stream",
-           "A": "data", "RF": "data", "RB": "data", "RG": "frag", "RT": "stream", "RTO": "stream", "X": "xattr", "XK": "xattr", "XD": "xattr", "U": "id", "L": "fragtable"}.get(last, last)
+           "A": "data", "RF": "data", "RB": "data", "RG": "frag", "RT": "stream", "RTO": "stream", "X": "xattr", "XK": "xattr", "XD": "xattr", "U": "id", "L": "fragtable",
+           "XA": "xattr", "XG": "xattr", "XGR": "xattr", "XS": "xattr", "XRK": "xattr", "XRV": "xattr", "XRP": "xattr", "XL": "xattr", "XC": "xattr"}.get(last, last)
     return fam
 
 
@@ -677,7 +734,7 @@ def run(ctx):
         core.prepare_proofs(ctx)
     h = B.compile_harness(info, [os.path.join(HERE, "h_reader.c")], "h_reader_c10")
     with core.Lock("coq"):     # everything the extraction needs, against the current Constants.vo
-        core.coq_make(["C10/ApiModel.vo", "C10/DataModel.vo", "C10/ClientModel.vo", "C10/MetaModel.vo", "C10/DotModel.vo"])
+        core.coq_make(["C10/ApiModel.vo", "C10/DataModel.vo", "C10/ClientModel.vo", "C10/MetaModel.vo", "C10/DotModel.vo", "C10/XFineModel.vo"])
     # the tools of the DOT_ENTRIES leg are built concurrently with the main model driver
     from concurrent.futures import ThreadPoolExecutor as _TPE
     _dot_pool = _TPE(max_workers=1)
@@ -691,7 +748,7 @@ def run(ctx):
         except Exception as e:   # model does not extract/build: the tie is broken, search still runs
             if attempt == 1:     # a concurrently running check may have rebuilt Gen/Constants.vo under us: rebuild once
                 with core.Lock("coq"):
-                    core.coq_make(["C10/ApiModel.vo", "C10/DataModel.vo", "C10/ClientModel.vo", "C10/MetaModel.vo", "C10/DotModel.vo"])
+                    core.coq_make(["C10/ApiModel.vo", "C10/DataModel.vo", "C10/ClientModel.vo", "C10/MetaModel.vo", "C10/DotModel.vo", "C10/XFineModel.vo"])
                 continue
             ctx.tie_broken.append("model driver: %r" % (e,))
     ctx.trusted += ["props/C10/h_reader.c (op executor, long-lived and fresh mode), props/C10/driver.ml + stubs.c (I/O glue; "
@@ -700,8 +757,13 @@ def run(ctx):
                     "ASan/UBSan verdict on the harness runs; ASan's allocator options (quarantine_size_mb, max_malloc_fill_size, "
                     "malloc_fill_byte) as the means to make uninitialised / recycled heap contents visible (check.py:REGIMES)",
                     "props/C10/sizeleg.py (hand-made valid streams of another size than expected: Python zlib/lzma, system liblz4/libzstd via ctypes)",
-                    "props/C10/gen_c10.c: translator meta_reader.c/block.h -> coq/C10/GenC10.v (regenerated on every run)"]
-    ctx.assumptions += ["the block decompressor is a function of its input (Section variable `uncompress`, no contract needed); "
+                    "props/C10/gen_c10.c: translator meta_reader.c/block.h -> coq/C10/GenC10.v (regenerated on every run)",
+                    "props/C10/xfineleg.py (writer of the xattr section of the crafted image; op generators of the fine-grained xattr API); "
+                    "h_reader.c's bookkeeping of the cursor-defining prefix (xpre) that the fresh mode replays"]
+    ctx.assumptions += ["fine-grained xattr reader API: what include/sqfs/xattr_reader.h documents as reader state is one position indicator "
+                        "(set by seek_kv, advanced by read_key/read_value/read, read_all = get_desc + seek_kv + reads); get_desc and sqfs_copy "
+                        "are pure with respect to it; a re-load with the same super block yields a reader equivalent to a new one",
+                        "the block decompressor is a function of its input (Section variable `uncompress`, no contract needed); "
                         "re-observed by the long-lived vs fresh comparison on compressed images",
                         "sqfs_file_t.read_at is the pread loop of lib/sqfs/src/io/file.c on a file that does not change; file size < 2^63",
                         "SQFS_DIR_READER_DOT_ENTRIES readers (props/C10/dotleg.py): the answers may depend on the SET of directory "
@@ -736,7 +798,7 @@ def run(ctx):
         r = json.load(open(ctx.replay))
         p = os.path.join(ctx.scratch, "replay.sqfs")
         open(p, "wb").write(bytes.fromhex(r["image_hex"]) if "image_hex" in r else zlib.decompress(bytes.fromhex(r["image_zhex"])))
-        cases.append(Case("replay", p, r["ops"], r.get("kind", "replay")))
+        cases.append(Case("replay", p, r["ops"], r.get("kind", "replay"), alloc_mb=r.get("alloc_mb")))
     else:
         quick = ctx.tier == "quick"
         # --- crafted images (uncompressed metadata: the model needs no oracle) ---
@@ -756,6 +818,31 @@ def run(ctx):
                 pd = os.path.join(ctx.scratch, "%s-dmg%d.sqfs" % (nm, k))
                 open(pd, "wb").write(dd)
                 cases.append(Case("%s-dmg%d" % (nm, k), pd, gen_ops(rnd, f, 80 if quick else 150), "damaged"))
+        # --- the fine-grained xattr reader API on an image with a hand-written xattr section (uncompressed metadata) ---
+        try:
+            xdata, xinfo = xfineleg.build_image(rnd)
+        except Exception as e:
+            xdata = None
+            ctx.violation("machinery:xfine-leg", "cannot build the xattr-section image: %r" % (e,), dict(kind="machinery", detail=repr(e)),
+                          no_input=True)
+        if xdata is not None:
+            p = os.path.join(ctx.scratch, "xfine.sqfs")
+            open(p, "wb").write(xdata)
+            f = image_facts(xdata)
+            hdr = gen_ops(rnd, f, 3)[:3]
+            other = lambda: [o for o in gen_ops(rnd, f, 5, with_L=False)[3:] if not o.startswith("M ")][:3]   # noqa: E731
+            cases.append(Case("xfine-corpus", p, corpus_ops("xfine", f), "corpus", alloc_mb=16))
+            # every set read three ways (read_all / read_key + read_value / read) on one long-lived reader
+            cases.append(Case("xfine-agree", p, ["XA %d" % i for i in range(xinfo["nsets"])], "xfine", alloc_mb=16))
+            for k in range(5 if quick else 15):
+                cases.append(Case("xfine-a%d" % k, p, hdr + xfineleg.aimed_ops(rnd, xinfo, 150 if quick else 300), "xfine", alloc_mb=16))
+            for k in range(7 if quick else 25):
+                cases.append(Case("xfine-h%d" % k, p, hdr + xfineleg.fine_ops(rnd, xinfo["nsets"], 150 if quick else 300, xinfo, other), "xfine", alloc_mb=16))
+            for k in range(12 if quick else 50):
+                dd = damage_bytes(xdata, rnd, xinfo["kv_start"], len(xdata), rnd.choice([1, 2, 4, 8]))
+                pd = os.path.join(ctx.scratch, "xfine-dmg%d.sqfs" % k)
+                open(pd, "wb").write(dd)
+                cases.append(Case("xfine-dmg%d" % k, pd, hdr + xfineleg.fine_ops(rnd, xinfo["nsets"], 100 if quick else 200, xinfo, other, agree=False), "damaged", alloc_mb=16))
         ctx.log("crafted images ready")
         # --- real images ---
         combos = [("gzip", 4096, True), ("xz", 8192, False), ("lz4", 4096, False), ("zstd", 16384, True)]
@@ -774,8 +861,15 @@ def run(ctx):
             nops = 120 if quick else (250 if bs <= 16384 else 60)
             for k in range(10 if quick else 40):
                 cases.append(Case("%s-h%d" % (nm, k), p, gen_ops(rnd, f, nops), "real"))
+            # the individual calls of the xattr reader on the library-written xattr table (compressed metadata, shared
+            # out-of-line values), interleaved with calls on the other readers
+            hdr = gen_ops(rnd, f, 3)[:3]
+            other = lambda: [o for o in gen_ops(rnd, f, 5)[3:] if not o.startswith("M ")][:3]   # noqa: E731
+            for k in range(2 if quick else 5):
+                cases.append(Case("%s-x%d" % (nm, k), p, hdr + xfineleg.fine_ops(rnd, f["xattr_ids"], nops, None, other), "real", alloc_mb=64))
             # api_agree on every file of the library-written image
-            cases.append(Case("%s-agree" % nm, p, ["A %d" % ref for ref, sz, nb in f["files"]][:400], "agree"))
+            cases.append(Case("%s-agree" % nm, p, ["A %d" % ref for ref, sz, nb in f["files"]][:400] +
+                              ["XA %d" % i for i in range(min(f["xattr_ids"], 200))], "agree"))
             s = f["super"]
             for k in range(15 if quick else 100):
                 dd = damage_bytes(data, rnd, 96 if rnd.random() < 0.3 else s["inode_table_start"], s["bytes_used"], rnd.choice([1, 3, 10]))
@@ -853,7 +947,7 @@ def run(ctx):
             img = open(case.path, "rb").read()
             ctx.violation(sig, "C10 violated on the implementation (%s image %s): %s; minimal history: %s"
                           % (case.kind, case.name, detail, " ; ".join(o for o in ops if not o.startswith("M "))),
-                          dict(image_zhex=zlib.compress(img, 9).hex(), ops=ops, kind=case.kind, detail=detail, regime=regime,
+                          dict(image_zhex=zlib.compress(img, 9).hex(), ops=ops, kind=case.kind, detail=detail, regime=regime, alloc_mb=case.alloc_mb,
                                how="h_reader <image> long  vs  h_reader <image> fresh  on these ops; ASAN_OPTIONS of the long-lived run: "
                                    + REGIMES["reuse" if regime in ("reuse", "regimes") else "default"]["ASAN_OPTIONS"]
                                    + " ; of the fresh run: " + (ENV if regime == "regimes" else ENV_FRESH)["ASAN_OPTIONS"]))
@@ -867,7 +961,7 @@ def run(ctx):
                 ctx.violation(sig, "correspondence model vs implementation broken (%s image %s): %s "
                               "(search: long-lived == fresh on this case and all others: no property failure found)"
                               % (case.kind, case.name, detail),
-                              dict(image_zhex=zlib.compress(img, 9).hex(), ops=case.ops[:idx + 1], kind=case.kind, detail=detail,
+                              dict(image_zhex=zlib.compress(img, 9).hex(), ops=case.ops[:idx + 1], kind=case.kind, detail=detail, alloc_mb=case.alloc_mb,
                                    correspondence="props/C10: extracted model == h_reader long (trace)"),
                               no_input=True)
     # readers created with SQFS_DIR_READER_DOT_ENTRIES: order-freedom of the inode-number cache
@@ -893,6 +987,8 @@ def run(ctx):
     ctx.coverage["long_vs_fresh_comparisons"] = stats["cmp_fresh"]
     ctx.coverage["api_agree_files"] = agree_files
     ctx.coverage["model_timeouts"] = stats.get("model_timeouts", 0)
+    ctx.coverage["xattr_fine_api_ops"] = stats.get("fine_ops", 0)
+    ctx.coverage["xattr_cursor_ops_not_compared_with_model_after_alloc_failure"] = stats.get("kv_desync_skipped", 0)
     ctx.coverage["distribution"] = dist
     ctx.coverage["rule"] = ("seeded op lists (seed %d) over crafted Builder images, gensquashfs images (gzip/xz/lz4/zstd%s; fragments, sparse, "
                             "duplicates, xattrs incl. out-of-line values, ext dirs) and bit-flipped variants; ops = raw meta reader "
@@ -906,7 +1002,13 @@ def run(ctx):
                             "re-fetches the same set in another order vs the extracted DotModel; comparator pairs vs key_compare.  "
                             "Allocator regimes: every case runs long-lived under ASan with quarantine + 0xbe fill AND with immediate reuse of "
                             "freed blocks without fill, fresh with zero-filled new memory; size leg: Builder images with valid gzip/xz/lz4/zstd "
-                            "streams that expand short / long as data, fragment and metadata blocks, each queried after a different full block"
+                            "streams that expand short / long as data, fragment and metadata blocks, each queried after a different full block.  "
+                            "Fine-grained xattr reader API (props/C10/xfineleg.py): the individual calls get_desc / seek_kv / read_key / read_value / "
+                            "read / load-again / sqfs_copy (+ read_all, partial iteration, three-way agreement XA) in arbitrary interleavings with "
+                            "each other and with the other readers, on a Builder image with a hand-written xattr section (600 sets, 2 descriptor "
+                            "blocks, ~18 key/value blocks, shared out-of-line values backward/forward, hostile entries), its bit-flipped variants, "
+                            "and the gensquashfs images; fresh side = a new reader that replays only the cursor-defining calls since the last "
+                            "successful seek_kv (never the lookups, copies, re-loads), model side = XFineModel.xf_step"
                             % (ctx.seed, "" if ctx.tier == "quick" else "/lzma"))
     ctx.add_samples(samples)
 
